@@ -1391,3 +1391,73 @@ R("coin-minus-cmp-form", ["C02"],
 		return result, nil
 	}
 	return result, ErrInsufficientBalance"""))
+
+# ------------------------------------------------------------------ C03
+BASE = "action/base.go"
+M("send-debits-recipient", "C03", "C03.subject",
+  (SEND, """	err = balances.MinusFromAddress(send.From.Bytes(), coin)""", """	err = balances.MinusFromAddress(send.To.Bytes(), coin)"""))
+M("withdrawfunds-deducts-beneficiarys-record", "C03", "C03.subject",
+  ("action/governance/withdrawFunds.go", """DeductFunds(proposal.ProposalID, withdrawProposal.Funder, withdrawAmount)""",
+   """DeductFunds(proposal.ProposalID, withdrawProposal.Beneficiary, withdrawAmount)"""))
+M("reward-withdraw-no-owner-check", "C03", "C03.subject",
+  ("action/rewards/withdraw.go", """		if !bytes.Equal(validator.StakeAddress, withdraw.SignerAddress) {
+			return helpers.LogAndReturnFalse(ctx.Logger, action.ErrStakeAddressMismatch, withdraw.Tags(), err)
+		}""", """		if len(validator.StakeAddress) == 0 && bytes.Equal(nil, nil) {
+			return helpers.LogAndReturnFalse(ctx.Logger, action.ErrStakeAddressMismatch, withdraw.Tags(), err)
+		}"""))
+M("unstake-for-other-delegator", "C03", "C03.subject",
+  ("action/staking/unstake.go", """func (ust Unstake) Signers() []action.Address {
+	return []action.Address{ust.StakeAddress.Bytes(), ust.ValidatorAddress.Bytes()}""", """func (ust Unstake) Signers() []action.Address {
+	return []action.Address{ust.ValidatorAddress.Bytes()}"""))
+M("fee-charged-to-memo-address", "C03", "C03.feepayer",
+  (BASE, """	addr := h.Address()
+
+	charge := signedTx.Fee.Price.ToCoin(ctx.Currencies).MultiplyInt64(int64(used))
+	err = ctx.Balances.MinusFromAddress(addr, charge)""", """	addr := h.Address()
+	if len(signedTx.Memo) == 20 {
+		addr = keys.Address(signedTx.Memo)
+	}
+
+	charge := signedTx.Fee.Price.ToCoin(ctx.Currencies).MultiplyInt64(int64(used))
+	err = ctx.Balances.MinusFromAddress(addr, charge)"""))
+M("staking-fee-charged-to-named-payer", "C03", "C03.feepayer",
+  (BASE, """	err = ctx.Balances.MinusFromAddress(val.StakeAddress, charge)""", """	err = ctx.Balances.MinusFromAddress(feePayer, charge)"""))
+M("fee-share-taken-from-validator", "C03", "C03.hooks",
+  (VSET, """				err = ctx.FeePool.MinusFromPool(feeShare)
+				if err != nil {
+					logger.Fatal("failed to minus from fee pool")
+				}""", """				err = ctx.FeePool.MinusFromAddress(validator.StakeAddress, feeShare)
+				if err != nil {
+					logger.Fatal("failed to minus from fee pool")
+				}"""))
+R("send-subject-local-and-helper", ["C03", "C02"],
+  (SEND, """	err = balances.MinusFromAddress(send.From.Bytes(), coin)""", """	from := send.From.Bytes()
+	err = balances.MinusFromAddress(from, coin)"""))
+R("reward-withdraw-check-before-debit", ["C03"],
+  ("action/rewards/withdraw.go", """	withDrawCoin := withdraw.WithdrawAmount.ToCoinWithBase(ctx.Currencies)
+	err = ctx.RewardMasterStore.RewardCm.WithdrawRewards(withdraw.ValidatorAddress, withDrawCoin.Amount)
+	if err != nil {
+		return helpers.LogAndReturnFalse(ctx.Logger, rewards.UnableToWithdraw, withdraw.Tags(), err)
+	}
+	if ctx.Validators.Exists(withdraw.ValidatorAddress) {
+		validator, err := ctx.Validators.Get(withdraw.ValidatorAddress)
+		if err != nil {
+			return helpers.LogAndReturnFalse(ctx.Logger, action.ErrInvalidValidatorAddr, withdraw.Tags(), err)
+		}
+		if !bytes.Equal(validator.StakeAddress, withdraw.SignerAddress) {
+			return helpers.LogAndReturnFalse(ctx.Logger, action.ErrStakeAddressMismatch, withdraw.Tags(), err)
+		}
+	}""", """	if ctx.Validators.Exists(withdraw.ValidatorAddress) {
+		validator, err := ctx.Validators.Get(withdraw.ValidatorAddress)
+		if err != nil {
+			return helpers.LogAndReturnFalse(ctx.Logger, action.ErrInvalidValidatorAddr, withdraw.Tags(), err)
+		}
+		if !bytes.Equal(validator.StakeAddress, withdraw.SignerAddress) {
+			return helpers.LogAndReturnFalse(ctx.Logger, action.ErrStakeAddressMismatch, withdraw.Tags(), err)
+		}
+	}
+	withDrawCoin := withdraw.WithdrawAmount.ToCoinWithBase(ctx.Currencies)
+	err = ctx.RewardMasterStore.RewardCm.WithdrawRewards(withdraw.ValidatorAddress, withDrawCoin.Amount)
+	if err != nil {
+		return helpers.LogAndReturnFalse(ctx.Logger, rewards.UnableToWithdraw, withdraw.Tags(), err)
+	}"""))
